@@ -131,7 +131,21 @@ impl Prop for C11 {
                 // (b)
                 let (n1, n2) = (oracle::line_count(&f1), oracle::line_count(&f2));
                 if n2 > n1 {
-                    let class = if fallback { "wrap-fallback" } else if max1 > w1 { "unfittable-narrow" } else { "more-lines-when-wider" };
+                    let class = if fallback {
+                        "wrap-fallback"
+                    } else if max1 > w1 {
+                        "unfittable-narrow"
+                    } else {
+                        // where do the two results break lines differently?
+                        let b1 = super::wf::line_start_ordinals(&f1);
+                        let b2 = super::wf::line_start_ordinals(&f2);
+                        let headers = super::wf::line_type_nb_ranges(&w.text, &[pasfmt_core::prelude::LogicalLineType::RoutineHeader]);
+                        if b1.symmetric_difference(&b2).all(|o| headers.iter().any(|(a, b)| o >= a && o < b)) {
+                            "routine-header-prefers-parameter-breaks"
+                        } else {
+                            "more-lines-when-wider"
+                        }
+                    };
                     out.violate("C11", class, format!("{} [{}] {n1} lines at wrap_column {w1} but {n2} lines at {w2} (widest line at {w1}: {max1})", w.name, base.short()), &w.text, Some(&c1));
                 }
                 // (c)
